@@ -41,7 +41,7 @@ _built = False
 
 def setup_harness():
     """Instantiate Cargo.toml files for VERIF_REPO and copy the repository's lock file."""
-    for rel in ("Cargo.toml", "gencases/Cargo.toml"):
+    for rel in ("Cargo.toml", "gencases/Cargo.toml", "c14crate/Cargo.toml"):
         src = os.path.join(HARNESS, rel + ".in")
         txt = open(src).read().replace("@REPO@", REPO)
         dst = os.path.join(HARNESS, rel)
@@ -51,10 +51,11 @@ def setup_harness():
     lock_dst = os.path.join(HARNESS, "Cargo.lock")
     if not os.path.exists(lock_dst):
         shutil.copy(lock_src, lock_dst)
-    gl = os.path.join(HARNESS, "gencases", "src", "lib.rs")
-    if not os.path.exists(gl):
-        os.makedirs(os.path.dirname(gl), exist_ok=True)
-        open(gl, "w").write("// generated by genhost\n")
+    for crate in ("gencases", "c14crate"):
+        gl = os.path.join(HARNESS, crate, "src", "lib.rs")
+        if not os.path.exists(gl):
+            os.makedirs(os.path.dirname(gl), exist_ok=True)
+            open(gl, "w").write("// generated\n" + ("pub mod rt;\npub mod pbrt;\npub fn table() -> Vec<(&'static str, rt::Ops)> { vec![] }\n" if crate == "gencases" else ""))
 
 
 def build_harness(bins=None):
